@@ -477,6 +477,12 @@ Proof.
     destruct H; [left|right; auto]. lia.
 Qed.
 
+Lemma step_prefetch_ok : forall v st, inv13 st -> inv13 (step capdb bad rf merge st (APrefetch v)).
+Proof.
+  intros v st I. simpl. destruct (vtag_of v (vtags st)) as [[stamp b]|]; [|exact I].
+  apply (invx_same [] st); auto. apply (i_queue _ _ I).
+Qed.
+
 Lemma tj_files_invalidate : forall h o, tj_files (invalidate_tj h o) = tj_files o.
 Proof. intros h [[snap ph v]|]; reflexivity. Qed.
 
@@ -573,7 +579,7 @@ Proof.
   destruct Hnu as [Hn1 Hn2].
   assert (Eh : forall u, holders (mkState (indexes st) (used st) (map f_uid created ++ disk st) (queue st) (known st) (processed st)
                   (next_cap st) (next_id st) (match snap with [] => next_uid st | _ => next_uid st + 1 end) (nunm st) (cwork st)
-                  (unc st) (cjob st) (ijob st) (Some (mkMJ off snap AtDone created)) (tjob st) (views st)) u = holders st u).
+                  (unc st) (cjob st) (ijob st) (Some (mkMJ off snap AtDone created)) (tjob st) (views st) (tagver st) (vtags st)) u = holders st u).
   { intros u. hsimpl. rewrite Hj. reflexivity. }
   unfold pend in *.
   constructor; simpl; auto; fold created; unfold pend.
@@ -728,11 +734,12 @@ Qed.
 
 Theorem step_inv13 : forall st a, inv13 st -> inv13 (step capdb bad rf merge st a).
 Proof.
-  intros st a I. destruct a as [ks|v|v|v| |h|h| | | |n|b| | |k|k].
+  intros st a I. destruct a as [ks|v|v|v|v| |h|h| | | |n|b| | |k|k].
   - apply step_import_ok; auto.
   - apply step_view_ok; auto.
   - apply step_read_ok; auto.
   - apply step_release_ok; auto.
+  - apply step_prefetch_ok; auto.
   - apply step_tagadd_ok; auto.
   - apply step_tagdel_ok; auto.
   - apply step_tagupd_ok; auto.
@@ -811,12 +818,13 @@ Qed.
 
 Lemma step_uniq : forall st a, inv13 st -> uniq st -> uniq (step capdb bad rf merge st a).
 Proof.
-  intros st a I U. destruct a as [ks|v|v|v| |h|h| | | |n|b| | |k|k]; simpl; auto.
+  intros st a I U. destruct a as [ks|v|v|v|v| |h|h| | | |n|b| | |k|k]; simpl; auto.
   - destruct ks; auto. destruct (ascending _ _); auto.
     destruct (_ =? _)%nat; auto.
   - destruct (view_of v (views st)); auto.
   - destruct (view_of v (views st)) as [[|]|]; auto. destruct rf; auto.
   - destruct (view_of v (views st)); auto.
+  - destruct (vtag_of v (vtags st)) as [[stamp b0]|]; auto.
   - intros u. rewrite indexes_start_tagging. apply U.
   - intros u. rewrite indexes_start_tagging. apply U.
   - intros u. rewrite indexes_start_converter, indexes_start_tagging. apply U.
